@@ -53,19 +53,118 @@ def deps_of(td: dict) -> typing.Set[str]:
     return dsdlgen._refs_in(td["body"])
 
 
+def make_variant(u: dict) -> typing.Optional[dict]:
+    """
+    A later revision of the same namespace: one type keeps its name, version and bit layout but refers to ANOTHER type (a clone
+    of its former dependency under a new name).  Earlier runs in the same process must not influence what is generated for it.
+    """
+    import copy
+
+    root = u["roots"][0]
+    keys = {type_key(td): td for td in root["types"]}
+    for td in root["types"]:
+        if td["kind"] == "service":
+            continue
+        for a in td["body"]["attrs"]:
+            t = a.get("type") if a["k"] == "field" else None
+            while t and t["t"] in ("farr", "varr"):
+                t = t["elem"]
+            if t and t["t"] == "ref":
+                dep_key = f"{t['full']}.{t['major']}.{t['minor']}"
+                if dep_key not in keys:
+                    continue
+                v = copy.deepcopy(u)
+                vroot = v["roots"][0]
+                dep = copy.deepcopy(keys[dep_key])
+                dep["name"] = dep["name"] + "Rev"
+                dep["port_id"] = None  # a fixed port-ID may be used by one definition only
+                if type_key(dep) in keys:
+                    continue
+                # place the clone right after the original (dependency order) and rewire the reference
+                idx = [type_key(x) for x in vroot["types"]].index(dep_key)
+                vroot["types"].insert(idx + 1, dep)
+                for vt in vroot["types"]:
+                    if type_key(vt) == type_key(td):
+                        for va in vt["body"]["attrs"]:
+                            x = va.get("type") if va["k"] == "field" else None
+                            while x and x["t"] in ("farr", "varr"):
+                                x = x["elem"]
+                            if x and x["t"] == "ref" and f"{x['full']}.{x['major']}.{x['minor']}" == dep_key:
+                                x["full"] = ".".join(dep["ns"] + [dep["name"]])
+                return v
+    return None
+
+
+def coincide(u: dict, pick: int) -> dict:
+    """Rename one nested namespace component to the name of a field of another type (same token as path and as attribute)."""
+    import copy
+
+    from pydsdl._serializable._name import check_name
+
+    root = u["roots"][0]
+    fields = [a["name"] for td in root["types"] if td["kind"] != "service" for a in td["body"]["attrs"] if a["k"] == "field"]
+    nested = sorted({tuple(td["ns"]) for td in root["types"] if len(td["ns"]) > 1})
+    if not fields or not nested:
+        return u
+    # prefer names that only the typed reserved patterns catch (they are treated differently as path and as attribute)
+    special = [f for f in fields if dsdlgen.name_class_of(f) == "pattern"] or [f for f in fields if dsdlgen.name_class_of(f) != "plain"]
+    if special:
+        fields = special
+    name = fields[pick % len(fields)]
+    ns = nested[pick % len(nested)]
+    siblings = {tuple(td["ns"][: len(ns)])[-1].lower() for td in root["types"] if len(td["ns"]) >= len(ns) and tuple(td["ns"][: len(ns) - 1]) == ns[:-1]}
+    siblings |= {td["name"].lower() for td in root["types"] if tuple(td["ns"]) == ns[:-1]}
+    if name.lower() in siblings or name.strip("_").lower() in {x.strip("_") for x in siblings}:
+        return u
+    try:
+        check_name(name)
+    except Exception:
+        return u
+    v = copy.deepcopy(u)
+    old_prefix = ".".join(ns)
+    new_ns = list(ns[:-1]) + [name]
+    new_prefix = ".".join(new_ns)
+
+    def fix_ref(t):
+        while t and t["t"] in ("farr", "varr"):
+            t = t["elem"]
+        if t and t["t"] == "ref" and (t["full"].startswith(old_prefix + ".")):
+            t["full"] = new_prefix + t["full"][len(old_prefix) :]
+
+    for td in v["roots"][0]["types"]:
+        if tuple(td["ns"][: len(ns)]) == ns:
+            td["ns"] = new_ns + td["ns"][len(ns) :]
+        bodies = [td["body"]] if td["kind"] != "service" else [td["body"]["request"], td["body"]["response"]]
+        for b in bodies:
+            for a in b["attrs"]:
+                if a["k"] == "field":
+                    fix_ref(a["type"])
+    return v
+
+
 class Env:
     def __init__(self, u: dict):
         self.u = u
         self.tmp = pathlib.Path(tempfile.mkdtemp(prefix="vf-c10-"))
-        self.root = u["roots"][0]
-        self.types = {type_key(td): td for td in self.root["types"]}
-        self.order = list(self.types)
+        self.variants = [u] + ([make_variant(u)] if make_variant(u) else [])
+        self.vi = 0
+        self.select(0)
         self.tpl = self.tmp / "tpl"
         self.tpl.mkdir()
+        self.model = {}
+        self._paths: typing.Dict[tuple, typing.Dict[str, str]] = {}
+        self.runs = 0
+        self._init_tpl()
+
+    def select(self, vi: int):
+        self.vi = vi % len(self.variants)
+        self.root = self.variants[self.vi]["roots"][0]
+        self.types = {type_key(td): td for td in self.root["types"]}
+        self.order = list(self.types)
+
+    def _init_tpl(self):
         for n, text in USER_TEMPLATES.items():
             (self.tpl / n).write_text(text)
-        self.model: typing.Dict[typing.Tuple[str, str], typing.Optional[bytes]] = {}
-        self.runs = 0
 
     def close(self):
         shutil.rmtree(self.tmp, ignore_errors=True)
@@ -82,8 +181,27 @@ class Env:
         return [k for k in self.order if k in out]
 
     def rel_file(self, key: str, cfg: dict) -> str:
-        td = self.types[key]
-        return "/".join(td["ns"] + [f"{td['name']}_{td['major']}_{td['minor']}{cfg['ext']}"])
+        """Output path of a type relative to --outdir (names may be stropped: the tree under test's own mapping is used,
+        which is C11's subject)."""
+        mk = (self.vi, cfg["argv"][1], cfg["ext"])
+        if mk not in self._paths:
+            import nunavut
+            import pydsdl
+            from nunavut.lang import LanguageContextBuilder
+
+            d = pathlib.Path(tempfile.mkdtemp(prefix="vf-c10map-"))
+            try:
+                for td in self.root["types"]:
+                    p = d / dsdlgen.typedef_relpath(td)
+                    p.parent.mkdir(parents=True, exist_ok=True)
+                    p.write_text(dsdlgen.typedef_text(td))
+                types = pydsdl.read_namespace(str(d / self.root["name"]), [], allow_unregulated_fixed_port_id=True)
+                lctx = LanguageContextBuilder(include_experimental_languages=True).set_target_language(cfg["argv"][1]).set_target_language_extension(cfg["ext"]).create()
+                ns = nunavut.build_namespace_tree(types, str(d / self.root["name"]), "OUT", lctx)
+                self._paths[mk] = {f"{t.full_name}.{t.version.major}.{t.version.minor}": str(pathlib.Path(path).relative_to("OUT")) for t, path in ns.get_all_datatypes()}
+            finally:
+                shutil.rmtree(d, ignore_errors=True)
+        return self._paths[mk][key]
 
     def materialise(self, keys: typing.List[str], creation_order: typing.Optional[typing.List[int]] = None) -> pathlib.Path:
         d = self.tmp / "in"
@@ -119,7 +237,7 @@ class Env:
         return rc, files, se
 
     def model_bytes(self, key: str, cfg: dict) -> typing.Optional[bytes]:
-        mk = (key, cfg["name"])
+        mk = (self.vi, key, cfg["name"])
         if mk not in self.model:
             rc, files, se = self.run(self.closure([key]), cfg, inproc=False)
             if rc != 0:
@@ -211,19 +329,26 @@ def make_machine(ctx: core.Ctx, configs: typing.List[dict]):
             self.seen_keys: typing.Set[str] = set()
             self.not_first = False
 
-        @initialize(u=dsdlgen.universe(profile="plain", max_roots=1, max_types=6, services=True, max_type_bits=2000))
-        def setup(self, u):
-            self.env = Env(u)
+        @initialize(u=dsdlgen.universe(profile="adversarial_nomacro", max_roots=1, max_types=6, services=True, max_type_bits=2000), pick=st.integers(0, 50), do=st.booleans())
+        def setup(self, u, pick, do):
+            # the same token as attribute name and as namespace (path) component -- a stropping-memo trap
+            self.env = Env(coincide(u, pick) if (do or pick % 2) else u)
+            if len(self.env.variants) > 1:
+                # directed prologue: revision 0, revision 1, revision 0 of the namespace in this interpreter
+                cfg = ["c", "cpp", "py"][pick % 3]
+                for v in (0, 1, 0):
+                    self.step({"seeds": None, "cfg": cfg, "inproc": True, "variant": v})
 
         def step(self, step: dict) -> None:
             env = self.env
             assert env is not None
             cfg = [c for c in CONFIGS if c["name"] == step["cfg"]][0]
+            env.select(step.get("variant", 0))
             keys = env.closure([env.order[i % len(env.order)] for i in step["seeds"]]) if step["seeds"] is not None else list(env.order)
             self.trace.append(step)
             rc, files, se = env.run(keys, cfg, inproc=step["inproc"], hashseed=step.get("hashseed", "0"), creation_order=step.get("creation"))
             if rc != 0:
-                ctx.fail(f"C10|{cfg['name'].split('+')[0]}|run-failed|{'inproc' if step['inproc'] else 'fresh'}", f"generating {keys}: {se[-600:]}", {"universe": env.u, "trace": list(self.trace)})
+                ctx.fail(f"C10|{cfg['name'].split('+')[0]}|run-failed|{'inproc' if step['inproc'] else 'fresh'}", f"generating {keys}: {se[-600:]}", {"universe": env.variants[0], "trace": list(self.trace)})
                 raise AssertionError("run failed")
             if step["inproc"]:
                 self.inproc_runs += 1
@@ -240,6 +365,12 @@ def make_machine(ctx: core.Ctx, configs: typing.List[dict]):
         def run_subset_inproc(self, seeds, cfg, creation):
             self.step({"seeds": seeds, "cfg": cfg, "inproc": True, "creation": creation})
 
+        @rule(cfg=st.sampled_from([c["name"] for c in configs]), variant=st.integers(0, 1))
+        def run_revision_inproc(self, cfg, variant):
+            # a later / earlier revision of the namespace in the same interpreter (a type keeps its name and layout but
+            # refers to another type)
+            self.step({"seeds": None, "cfg": cfg, "inproc": True, "variant": variant})
+
         @rule(cfg=st.sampled_from([c["name"] for c in configs]))
         def run_whole_inproc(self, cfg):
             self.step({"seeds": None, "cfg": cfg, "inproc": True})
@@ -254,7 +385,8 @@ def make_machine(ctx: core.Ctx, configs: typing.List[dict]):
                     ("c10", self.env.u, self.trace),
                     nontrivial=self.inproc_runs >= 2 and self.shared_types >= 1 and self.not_first,
                     sample={"types": self.env.order, "steps": self.trace[:6]},
-                    classes=["machines", f"steps={min(len(self.trace), 8)}"] + sorted({"cfg." + s["cfg"] for s in self.trace}) + (["fresh_hashseed_run"] if any(not s["inproc"] for s in self.trace) else []),
+                    classes=["machines", f"steps={min(len(self.trace), 8)}"] + sorted({"cfg." + s["cfg"] for s in self.trace}) + (["fresh_hashseed_run"] if any(not s["inproc"] for s in self.trace) else [])
+                    + (["revision_run"] if len({s.get("variant", 0) for s in self.trace if s["inproc"]}) > 1 else []) + (["has_revision_variant"] if len(self.env.variants) > 1 else []),
                 )
                 ctx.event("tool_runs", self.env.runs)
                 ctx.event("model_files", len(self.env.model))
@@ -275,7 +407,7 @@ def run(ctx: core.Ctx):
         "only type files (<Short>_<M>_<m><ext>) are compared: namespace files legitimately list siblings",
         "html target not included (its pages embed namespace navigation)",
     ]
-    n = 10 if ctx.quick else 80
+    n = 8 if ctx.quick else 80
     machine = make_machine(ctx, CONFIGS)
     try:
         run_state_machine_as_test(hypothesis.seed(ctx.seed)(machine), settings=core.hsettings(n, shrink=not os.environ.get("VF_NO_SHRINK"), stateful_step_count=6 if ctx.quick else 12))
@@ -291,6 +423,7 @@ def replay(ctx: core.Ctx, case):
     try:
         for step in case["trace"]:
             cfg = [c for c in CONFIGS if c["name"] == step["cfg"]][0]
+            env.select(step.get("variant", 0))
             keys = env.closure([env.order[i % len(env.order)] for i in step["seeds"]]) if step["seeds"] is not None else list(env.order)
             rc, files, se = env.run(keys, cfg, inproc=step["inproc"], hashseed=step.get("hashseed", "0"), creation_order=step.get("creation"))
             if rc != 0:
